@@ -286,14 +286,21 @@ func validatingFns(w *World) (map[*ssa.Function]bool, map[*ssa.Function]string) 
 				if !isRet || !good {
 					return
 				}
-				phiLeaves(ret.Results[0], in, func(v ssa.Value, fact factOracle) {
+				phiLeavesA(ret.Results[0], in, func(v ssa.Value, fact factOracle, aliases []ssa.Value) {
 					if !good {
 						return
 					}
-					// (a) a known non-nil error on this edge
+					// (a) a known non-nil error on this edge (tested directly or through the merged variable)
 					if fact(func(cond ssa.Value, truth bool) bool {
-						is, pol := nonNilTest(cond, v)
-						return is && pol == truth
+						if is, pol := nonNilTest(cond, v); is && pol == truth {
+							return true
+						}
+						for _, al := range aliases {
+							if is, pol := nonNilTest(cond, al); is && pol == truth {
+								return true
+							}
+						}
+						return false
 					}) {
 						return
 					}
